@@ -365,6 +365,19 @@ def correspond(ctx):
                 return ['L', rng.randrange(n), m]
         return None
 
+    def as_message(lg):
+        # the same login as the OSC reply ['/done', '/notify', id, count] (or without count) reaching the 'done' responder
+        if lg is None or rng.random() < 0.35:
+            return lg
+        reply = [lg[1]] + ([lg[2]] if lg[2] is not None else []) + ([7] if lg[2] is not None and rng.random() < 0.2 else [])
+        return ['M', rng.choice(['booting', 'registering']), 'done', reply]
+
+    def noise_message():
+        # replies that are NOT a login: wrong state, no id, failure
+        return rng.choice([['M', 'none', 'done', [rng.randrange(4), rng.choice([2, 4, 8])]], ['M', 'unregistering', 'done', []],
+                           ['M', 'registering', 'done', []], ['M', 'registering', 'fail', ['too many users']],
+                           ['M', 'booting', 'fail', ['whatever', 3]], ['M', 'unregistering', 'done', [1, 2]]])
+
     def per_client(o):
         io = o['input_channels'] + o['output_channels']
         return {'A': (o['audio_buses'] - io) // o['max_logins'] - o['reserved_audio_buses'],
@@ -411,7 +424,7 @@ def correspond(ctx):
             if lg:
                 cm = lg[2] if lg[2] is not None else cm
                 pc = shares(o1, cm or o1['max_logins'])
-                ops += [lg, ['A', pc['A'], 0], ['C', 1, 0], ['C', pc['C'], 0], ['B', 1, 0], ['N', 2], ['F', 2], ['A', 1, 0]]
+                ops += [as_message(lg), noise_message(), ['A', pc['A'], 0], ['C', 1, 0], ['C', pc['C'], 0], ['B', 1, 0], ['N', 2], ['F', 2], ['A', 1, 0]]
         scases.append({'opts': o1, 'client': rng.randrange(o1['max_logins']), 'ops': ops})
     # (b) random object-level histories
     for _ in range(ctx.n(14, 80)):
@@ -447,8 +460,10 @@ def correspond(ctx):
             elif r < 0.978:
                 lg = login_for(cur, cur_m)
                 if lg:
-                    ops.append(lg)
+                    ops.append(as_message(lg))
                     cur_m = lg[2] if lg[2] is not None else cur_m
+                if rng.random() < 0.5:
+                    ops.append(noise_message())
             elif r < 0.985:
                 ops.append(['D', rng.choice([1, 2]), rng.randrange(1000)])
             else:
@@ -507,6 +522,10 @@ def correspond(ctx):
                     return 'SSetClient %s' % cz(op[1])
                 if op[0] == 'O':
                     return 'SSetOpts %s' % coq_opts(op[1])
+                if op[0] == 'M':
+                    if op[2] == 'fail':
+                        return 'SNotifyFail'
+                    return 'SNotifyDone %s %s' % (cbool(op[1] in ('booting', 'registering')), clist([cz(x) for x in op[3]]))
                 return 'SLogin %s %s' % (cz(op[1]), '(Some %s)' % cz(op[2]) if op[2] is not None else 'None')
             def sob(e):
                 pr = e['params']
@@ -535,7 +554,7 @@ def correspond(ctx):
                 local = set(cb) - set(cb[j] for j in cb2)
         for i in cb[:3]:
             sc, ctrl = scinfo[i]
-            hist = [e['op'] if e['op'][0] != 'O' else ['O', '...options...'] for e in ctrl[1:]]
+            hist = [e['op'] if e['op'][0] != 'O' else ['O', '...options...'] for e in ctrl[1:]]   # M = OSC reply to /notify delivered to the responder
             last = ctrl[-1]
             c.failures.append(Failure(
                 'search', 'Server options %s, first client id %d, control operations %s (R = _set_client_id, O = options assigned, L = login reply (id, max logins)): '
@@ -626,7 +645,7 @@ def search(ctx, failures):
                 if m > 32 or any(per <= resv for per, _, resv in sh_m.values()):
                     continue
                 for gid in sorted(set([0, m - 1, min(m - 1, o['max_logins'])])):
-                    ops = [['L', gid, m]]
+                    ops = [['M', 'registering', 'done', [gid, m]]]
                     for kind, which in (('A', 'audio'), ('C', 'control'), ('B', 'buffer')):
                         ops += [[kind, 1, 0]] * (sh_m[which][0] + 1)
                     dcases.append({'opts': o, 'client': 0, 'ops': ops})
@@ -648,7 +667,7 @@ def search(ctx, failures):
                     ctor = {'AudioBus': 'audio', 'ControlBus': 'control', 'Buffer': 'buffer'}
                     name = [n for n, w in ctor.items() if w == which][0]
                     found.append(Failure('search', 'Server options %s, %s: %d successive %s(1) objects got the indices %s, but the client\'s share of the '
-                                         '%s index space after its reserved indices is %s' % (dc['opts'], ('after the login reply (granted id %d, max logins %d)' % (gid, gm)) if gm is not None else 'client id %d' % gid, per + 1, name, got, which, want),
+                                         '%s index space after its reserved indices is %s' % (dc['opts'], ('after the reply [/done, /notify, %d, %d] to the registration request' % (gid, gm)) if gm is not None else 'client id %d' % gid, per + 1, name, got, which, want),
                                          signature='C16:option-construction',
                                          replay={'options': dc['opts'], 'client': gid, 'login_reply': dc.get('login_reply'), 'allocator': which, 'got': got, 'expected': want,
                                                  'replay_cmd': "sc3.init('nrt'); s = Server.default; set s.options fields; s._set_client_id(%d); [%s(1, s).%s for _ in range(%d)]" % (
